@@ -248,31 +248,40 @@ def run(F, R, tier):
     # ------------------------------------------------------------------ R4 dates
     r4 = R.rule("C07-R4", "T2+T4", "every i64 → Timestamp goes through Timestamp::from_unix with the error propagated; issuance prefers nbf, falls back to iat, errors when both are absent")
     fn = CJ + "::IssuanceDateClaims::to_issuance_date"
-    h = F.hir(fn)
-    if r4.anchor(h, fn):
-        env = H.Env(h)
-        calls = H.calls(h, TS + "::from_unix") + [n for n in H.walk(H.root(h)) if n.get("k") == "path" and n.get("res", {}).get("def") == TS + "::from_unix"]
-        r4.require(len(calls) >= 2, (fn, "from_unix"), "to_issuance_date does not convert both nbf and iat through Timestamp::from_unix")
-        # abstract evaluation of the three cases
-        is_nbf = lambda oo: bool(oo) and all(o[:3] == ("param", "self", "nbf") for o in oo)
-        is_iat = lambda oo: bool(oo) and all(o[:3] == ("param", "self", "iat") for o in oo)
-        tree, infos = L.exit_infos(h)
-        # nbf present → first branch; both absent → error
-        iflet = H.find_first(h, lambda n: n.get("k") == "if" and H.strip(n["cond"]).get("k") == "letexpr")
-        if r4.require(iflet is not None, (fn, "shape"), "expected `if let Some(ts) = nbf… {Ok(ts)} else {from_unix(iat?)}`"):
-            oo = H.origins(H.strip(iflet["cond"])["init"], env, extra=WRAP)
-            r4.site("issuance date prefers %s" % sorted(map(str, oo)), iflet["sp"])
-            r4.require(oo == {("param", "self", "nbf")}, (fn, "prefers-nbf"), "to_issuance_date does not prefer nbf: %s" % sorted(map(str, oo)))
-            init = H.strip(iflet["cond"])["init"]
-            fns_i = H.called_fns(init)
-            r4.require(TS + "::from_unix" in fns_i and H.try_inner(init) is not None and not any(f.endswith("Result::ok") or "unwrap_or" in f for f in fns_i), (fn, "nbf-error-propagated"),
-                       "an out-of-range nbf is not propagated as an error (from_unix(..)? expected; found calls %s)" % sorted(L.short(x) for x in fns_i))
-            eo = H.origins(iflet["else"], env, extra=WRAP)
-            r4.require(eo == {("param", "self", "iat")}, (fn, "fallback-iat"), "to_issuance_date does not fall back to iat: %s" % sorted(map(str, eo)))
-            v = H.abs_eval(H.strip(iflet["else"]).get("expr") or iflet["else"], env, [(is_iat, H.NONE)])
-            has_ok_or = any(n.get("k") == "mcall" and n["name"] in ("ok_or", "ok_or_else") for n in H.walk(iflet["else"]))
-            r4.require(has_ok_or, (fn, "both-absent"), "both nbf and iat absent is not an error")
-            r4.site("iat absent → error (ok_or … ?)")
+    if r4.anchor(F.hir(fn), fn):
+        # decision table by abstract evaluation: nbf present → from_unix(nbf)? (its error is NOT swallowed, no fallback to iat);
+        # nbf absent, iat present → from_unix(iat)?; both absent → error
+        tab = SR.Table(F, fn, opaque=r"Timestamp::from_unix$", rule=r4)
+        NBF, IAT = SR.fld("nbf"), SR.fld("iat")
+        rows = set()
+        for q in tab.paths:
+            nv, iv = SR.variant(q, NBF), SR.variant(q, IAT)
+            conv = [(sym.term(e.args[0]), q.succeeded(e)) for e in q.calls(r"Timestamp::from_unix$")]
+            ok = SR.is_success(q.ret)
+            rows.add((nv, iv, "Ok" if ok else "Err"))
+            if nv == "Some":
+                src = ("payload", NBF, "Some", 0)
+                r4.require(any(a == src for a, _ in conv), (fn, "prefers-nbf"), "to_issuance_date does not convert nbf when it is present")
+                good = [sc for a, sc in conv if a == src]
+                if ok:
+                    r4.require(good == [True] and len(conv) == 1 and SR.derives(q.ret, ("call", TS + "::from_unix", (src,))), (fn, "nbf-error-propagated"),
+                               "with nbf present the result is not from_unix(nbf)? (an out-of-range nbf must be an error, not a fallback to iat) — path: %s" % q.describe()[:200])
+                else:
+                    r4.require(good and good[-1] is False, (fn, "nbf-error-propagated"), "with nbf present the function fails for another reason than from_unix(nbf) failing")
+            elif nv == "None" and iv == "Some":
+                src = ("payload", IAT, "Some", 0)
+                if ok:
+                    r4.require(SR.derives(q.ret, ("call", TS + "::from_unix", (src,))) and [sc for a, sc in conv if a == src] == [True], (fn, "fallback-iat"), "to_issuance_date does not fall back to from_unix(iat)?")
+            elif nv == "None" and iv == "None":
+                r4.require(not ok, (fn, "both-absent"), "both nbf and iat absent is not an error")
+            else:
+                r4.require(not ok or nv is not None, (fn, "shape"), "to_issuance_date succeeds without looking at nbf")
+        r4.site("to_issuance_date rows (nbf, iat → outcome): %s" % sorted(rows, key=str))
+        r4.site("issuance date prefers nbf")
+        r4.site("iat absent → error")
+        want = {("Some", None, "Ok"), ("Some", None, "Err"), ("None", "Some", "Ok"), ("None", "Some", "Err"), ("None", "None", "Err")}
+        r4.require({(a, b, c) for a, b, c in rows if a == "None"} >= {x for x in want if x[0] == "None"} and any(a == "Some" and c == "Ok" for a, b, c in rows) or not tab.paths, (fn, "from_unix"),
+                   "to_issuance_date does not convert both nbf and iat through Timestamp::from_unix: %s" % sorted(rows, key=str))
     for fn, fields in ((CJ + "::CredentialJwtClaims::try_into_credential", ["expiration_date"]),):
         h = F.hir(fn)
         if h:
